@@ -119,6 +119,7 @@ func Load(repo string, cfg BuildConfig) (*Ctx, error) {
 		return nil, fmt.Errorf("LOAD: anchor package %s/lisp missing", modPath)
 	}
 	c.computeRenames()
+	c.indexBoolLocals()
 	return c, nil
 }
 
